@@ -55,6 +55,9 @@ func isCeilDiv8(v ssa.Value) (ssa.Value, bool) {
 }
 
 func checkC12(p *Program, r *Report) {
+	// round 6 (systematic): no unguarded mutable package-level state behind this property's functions (§2.9)
+	sharedStateRule(p, r, NewEffects(p), "C12.shared", []string{"merkleblock/decode.go"})
+	r.Floor("C12.shared", 0)
 	// round 5 (C12-agent5-m3): the extractor walks the tree the builders write: its width function, right-child guard
 	// and recursion tuple are compared with theirs under C11.shape / C11.width; an extractor that invents a right
 	// child for the unpaired last transaction accepts a surplus hash as a leaf at position numTx
